@@ -148,6 +148,16 @@ def run(ctx):
                 cfg, fn = mk("PluralityVeto", s2)
                 expect(ctx, {"what": f"PluralityVeto: weight {wbad} (almost an integer)", "cfg": cfg, "profile": s2}, fn, TypeError,
                        "integer_weights")
+        # ... a fractional weight on a ballot that ALSO has a tied position, with every tiebreak option: the ballot is refused
+        # whichever of its two problems is looked at first (TypeError for the weight; without a tiebreak the tie itself may be
+        # reported instead, with the exception the rule documents for it)
+        for wbad in (F(5, 2), F(7, 3), 2.5):
+            for tb in ("random", "borda", "first_place"):
+                tied_r = [tuple(cs[:2])] + list(cs[2:]) if rnd.random() < 0.5 else list(cs[:-2]) + [tuple(cs[-2:])]
+                s2 = with_bad_ballot(spec, B(tied_r, wbad), pos)
+                cfg, fn = mk("PluralityVeto", s2, tiebreak=tb)
+                expect(ctx, {"what": f"PluralityVeto(tiebreak={tb}): weight {wbad} on a ballot with a tied position", "cfg": cfg, "profile": s2},
+                       fn, TypeError, "integer_weights")
         bl = [canon.build_ballot(b) for b in spec["ballots"]]
         lead = sum(b.weight for b in bl if b.ranking[0] == frozenset([cs[0]]))
         expect(ctx, {"what": "random_transfer: integer weights", "profile": spec},
